@@ -707,8 +707,8 @@ func (d *Decoder) decodeCadenceTypeID() (cadenceTypeID, common.Location, string,
 	location, identifier, err := common.DecodeTypeID(d.gauge, typeID)
 	if err != nil {
 		return cadenceTypeID(typeID), nil, "", fmt.Errorf("invalid type ID `%s`: %w", typeID, err)
-	} else if location == nil && sema.NativeCompositeTypes[typeID] == nil {
-		// If the location is nil and there is no native composite type with this ID, then it's an invalid type.
+	} else if location == nil && sema.NativeCompositeTypes[typeID] == nil && sema.NativeInterfaceTypes[typeID] == nil {
+		// If the location is nil and there is no native composite or interface type with this ID, then it's an invalid type.
 		// Note: This was moved out from the common.DecodeTypeID() to avoid the circular dependency.
 		return cadenceTypeID(typeID), nil, "", fmt.Errorf("invalid type ID for built-in: `%s`", typeID)
 	}
